@@ -68,19 +68,21 @@ def setup(ctx):
   import gin
   P = {}
 
-  def mk(name, module, shape='fn', api='external'):
+  def mk(name, module, shape='fn', api='external', cls_name=None):
     P[(module, name)] = probes.build({'shape': shape, 'api': api, 'name': name, 'module': module, 'pos': [], 'dflt': [['x', 0], ['y', 0], ['Z', 0], ['z', 0]],
-                                      'varargs': False, 'kwonly': [], 'varkw': True})
+                                      'varargs': False, 'kwonly': [], 'varkw': True, 'cls_name': cls_name})
   mk('c6a', 'c6.m1')
   mk('c6a', 'c6.m2')        # same base name: minimal selector needs a module part
   mk('c6a', 'c6.deep.m1')   # and a deeper one sharing the suffix m1.c6a
   mk('c6b', 'c6.m1')
   mk('C6B', 'c6.m1')        # case variant of c6b
   mk('c6c', 'c6', api='configurable')
-  mk('c6m', 'c6.m1', shape='method')
+  mk('c6m', 'c6.m1', shape='method', cls_name='C6K')
+  mk('c6m', 'c6.m2', shape='method', cls_name='C6K')     # an equally named method of an equally named class in another module
   _S['P'] = P
-  _S['targets'] = ['c6.m1.c6a', 'c6.m2.c6a', 'c6.deep.m1.c6a', 'c6.m1.c6b', 'c6.m1.C6B', 'c6.c6c', 'METHOD']
+  _S['targets'] = ['c6.m1.c6a', 'c6.m2.c6a', 'c6.deep.m1.c6a', 'c6.m1.c6b', 'c6.m1.C6B', 'c6.c6c', 'METHOD', 'METHOD2']
   _S['method'] = P[('c6.m1', 'c6m')]
+  _S['method2'] = P[('c6.m2', 'c6m')]
 
 
 def gen_val(rng):
@@ -222,6 +224,8 @@ def spec_feats(spec, out):
 def target_selector(tgt):
   if tgt == 'METHOD':
     return _S['method'].selector
+  if tgt == 'METHOD2':
+    return _S['method2'].selector
   return tgt
 
 
